@@ -1,6 +1,6 @@
 From Coq Require Import ZArith List String Bool.
 Import ListNotations.
-From TD Require Import Lib.Sexp Model.C17_Inverse.
+From TD Require Import Lib.Sexp Model.C17_Inverse Model.C17_Elem Model.C17_Ctx.
 Open Scope string_scope.
 
 Definition dec_val (s : sexp) : option val :=
@@ -26,8 +26,101 @@ Definition enc_icall (c : icall) : sexp :=
   | CRaise => SA "raise"
   end.
 
+Definition dec_icall (s : sexp) : option icall :=
+  match s with
+  | SL [SA "transpose"; SZ a; SZ b] => Some (CTranspose a b)
+  | SL [SA "permute"; l] => option_map CPermute (dec_list dec_Z l)
+  | SL [SA "view"; l] => option_map CView (dec_list dec_Z l)
+  | SL [SA "flatten"; SZ a; SZ b] => Some (CFlatten a b)
+  | SL [SA "unflatten"; SZ d; l] => option_map (CUnflatten d) (dec_list dec_Z l)
+  | SL [SA "squeeze"; SZ d] => Some (CSqueeze d)
+  | SL [SA "unsqueeze"; SZ d] => Some (CUnsqueeze d)
+  | SA "none" => Some CIdentity
+  | _ => None
+  end.
+
+(* where every element of the source (row-major order) lands *)
+Definition pushall (c : icall) (sh : list Z) : list (option (list Z)) :=
+  map (fun k => push c sh (unravel sh (Z.of_nat k))) (seq 0 (Z.to_nat (prodZ sh))).
+
+Definition enc_idx := enc_opt (enc_list enc_Z).
+
+(* forward binding, result shape, element map; then the reverse call on the result, its shape and element map *)
+Definition elem_report (op : string) (s : spelled) (bs : list Z) : sexp :=
+  match forward_call op s with
+  | None => SA "badcall"
+  | Some c =>
+      match shape_of c bs with
+      | None => SL [SA "fwdraise"; enc_icall c]
+      | Some ysh =>
+          let r := reverse op s bs (zlen ysh) in
+          SL [SA "ok"; enc_icall c; enc_list enc_Z ysh; enc_list enc_idx (pushall c bs);
+              enc_icall r; enc_opt (enc_list enc_Z) (shape_of r ysh); enc_list enc_idx (pushall r ysh)]
+      end
+  end.
+
+(* ---- context-manager protocol (Model/C17_Ctx.v) ---- *)
+Definition dec_exc (s : sexp) : option exc :=
+  match s with SA "none" => Some ExcNone | SA "exception" => Some ExcException | SA "base" => Some ExcBase | _ => None end.
+Definition enc_exc (e : exc) : sexp := SA (match e with ExcNone => "none" | ExcException => "exception" | ExcBase => "base" end).
+
+Fixpoint dec_prog (fuel : nat) (s : sexp) : option prog :=
+  match fuel with
+  | O => None
+  | S f =>
+      match s with
+      | SA "skip" => Some PSkip
+      | SL [SA "raise"; e] => option_map PRaise (dec_exc e)
+      | SL [SA "seq"; a; b] => match dec_prog f a, dec_prog f b with Some a, Some b => Some (PSeq a b) | _, _ => None end
+      | SL [SA "lock"; b] => option_map PLock (dec_prog f b)
+      | SL [SA "unlock"; b] => option_map PUnlock (dec_prog f b)
+      | SL [SA "bare"; b] => option_map PBare (dec_prog f b)
+      | _ => None
+      end
+  end.
+
+Definition dec_lastop (s : sexp) : option (option oprec) :=
+  match s with
+  | SA "none" => Some None
+  | SL [SA "shape"; SA n; a] => option_map (fun b => Some {| o_op := OpShape n; o_alive := b |}) (dec_bool a)
+  | _ => None
+  end.
+
+Definition enc_cop (c : cop) : sexp :=
+  SA (match c with OpLock => "lock_" | OpUnlock => "unlock_" | OpToModule => "to_module" | OpShape n => n end).
+
+Definition enc_obj (o : tdobj) : sexp :=
+  SL [enc_bool (locked o); enc_opt (fun rc => enc_cop (o_op rc)) (last_op o);
+      enc_list (enc_opt (fun rc => enc_cop (o_op rc))) (queue o)].
+
 Definition dispatch (cmd : string) (args : list sexp) : option sexp :=
   match cmd, args with
+  | "writeback", [lk; out; inv] =>
+      let dec_ent := dec_pair dec_str (dec_pair dec_nat dec_Z) in
+      match dec_bool lk, dec_list dec_ent out, dec_list dec_ent inv with
+      | Some lk, Some out, Some inv =>
+          Some (enc_opt (enc_list (enc_pair enc_str (enc_pair enc_nat enc_Z))) (writeback lk out inv))
+      | _, _, _ => None
+      end
+  | "runprog", [lk; lo; p] =>
+      match dec_bool lk, dec_lastop lo, dec_prog 64 p with
+      | Some lk, Some lo, Some p =>
+          Some (match run true p {| locked := lk; last_op := lo; queue := [] |} with
+                | Some (o, e) => SL [SA "ok"; enc_obj o; enc_exc e]
+                | None => SA "fail"
+                end)
+      | _, _, _ => None
+      end
+  | "elem", [SA op; ps; kws; bs] =>
+      match dec_list dec_val ps, dec_list (dec_pair dec_str dec_val) kws, dec_list dec_Z bs with
+      | Some ps, Some kws, Some bs => Some (elem_report op {| pos := ps; kw := kws |} bs)
+      | _, _, _ => None
+      end
+  | "shape_of", [c; bs] =>
+      match dec_icall c, dec_list dec_Z bs with
+      | Some c, Some bs => Some (SL [enc_opt (enc_list enc_Z) (shape_of c bs); enc_list enc_idx (pushall c bs)])
+      | _, _ => None
+      end
   | "reverse", [SA op; ps; kws; bs; SZ self_ndim] =>
       match dec_list dec_val ps, dec_list (dec_pair dec_str dec_val) kws, dec_list dec_Z bs with
       | Some ps, Some kws, Some bs => Some (enc_icall (reverse op {| pos := ps; kw := kws |} bs self_ndim))
